@@ -1,6 +1,7 @@
 import Oracle.Proto
 import MV.Model.Future
 import MV.Spec.Future
+import MV.Model.FutureFacts
 /-!
 Oracle suites for `engine/future` (T-sched): the model executes the same schedule as the instrumented
 Go code, one scheduling quantum (= one model step) per `run` line; the judge evaluates
@@ -33,14 +34,6 @@ def fmtFut (g : G) (k : Nat) : String :=
 
 def fmtState (g : G) : String :=
   " ".intercalate ((List.range g.nfut).map (fmtFut g)) ++ s!" dead={g.dead.length} crashes={g.crashes}"
-
-def observe (g : G) (k : Nat) : Obs :=
-  let f := g.futs k
-  { k := k, addr := f.addr, tmo := f.tmo, rcSet := f.rcSet, closed := f.closed, dones := f.dones,
-    registered := isReg g k, timerActive := f.timerActive, pendingFwd := f.forwards.length,
-    results := f.results, fwdLog := f.fwdLog, fwdReq := f.fwdReq }
-
-def observeAll (g : G) : List Obs := (List.range g.nfut).map (observe g)
 
 def fmtObs (o : Obs) : String :=
   s!"F k={o.k} addr={o.addr} tmo={b01 o.tmo} rc={b01 o.rcSet} closed={b01 o.closed} done={o.dones} reg={b01 o.registered} timer={b01 o.timerActive} pfw={o.pendingFwd} res={commaOr (o.results.map fmtRes)} fwd={commaOr (o.fwdLog.map fun x => s!"{x.1}/{fmtErr x.2}")} req={commaOr (o.fwdReq.map toString)}"
@@ -191,5 +184,92 @@ def judge : Suite where
         | none => ((), "bad:unparsable-final-line")
       else ((), "ok")
     | [] => ((), "bad-op")
+
+/-! ## end-to-end `ask` suite -/
+
+def parseRecv : String → Option Recv
+  | "echo" => some .echo | "silent" => some .silent | "error" => some .error
+  | "double" => some .double | "late" => some .late | _ => none
+
+def validEntry (e : String) : Bool := e == "ctx" || e == "sys" || e == "typed" || e == "sysspawn"
+
+def parseAskOp : List String → Option (Nat × Nat × Recv × Nat)
+  | ["ask", e, n, each, r, t] =>
+    match n.toNat?, each.toNat?, parseRecv r, t.toNat? with
+    | some n, some each, some r, some t =>
+      if validEntry e && 1 ≤ n && n ≤ 64 && 1 ≤ each && each ≤ 100000 && 1 ≤ t then some (n, each, r, t) else none
+    | _, _, _, _ => none
+  | _ => none
+
+def parseAskObs (op out : List String) : Option AskObs := do
+  let (n, each, r, t) ← parseAskOp op
+  let cnt ← Outcome.all.mapM (fun c => if c == .closed then some (c, 0) else (kv out c.name).bind (·.toNat?) |>.map (fun v => (c, v)))
+  let late ← (← kv out "late").toNat?
+  let req ← (← kv out "req").toNat?
+  let nilreq ← (← kv out "nilreq").toNat?
+  let rd ← (← kv out "regdelta").toInt?
+  let sp ← parseBool (← kv out "spawnpanic")
+  pure { askers := n, each := each, recv := r, timeoutUs := t, count := fun c => (cnt.lookup c).getD 0,
+         late := late, req := req, nilreq := nilreq, regdelta := rd, spawnPanic := sp }
+
+/-- judge of the `ask` suite: `ask … => <counts>` -/
+def askJudge : Suite where
+  σ := Unit
+  init := ()
+  step _ toks :=
+    let op := toks.takeWhile (· ≠ "=>")
+    match toks.dropWhile (· ≠ "=>") with
+    | _ :: out =>
+      match parseAskOp op with
+      | none => ((), if out == ["bad-op"] then "ok" else "bad:malformed-op-accepted")
+      | some _ =>
+        match parseAskObs op out with
+        | some o => ((), askVerdict o)
+        | none => ((), "bad:unparsable-output")
+    | [] => ((), "bad-op")
+
+/-! ## un-serialised `future-race` suite -/
+
+def validRaceOp : List String → Bool
+  | ["race", a, b, c, d, e, f, g] =>
+    match a.toNat?, b.toNat?, c.toNat?, d.toNat?, e.toNat?, f.toNat?, g.toNat? with
+    | some r, some er, some cl, some tm, some fw, some rd, some reps =>
+      tm ≤ 1 && 0 < r + er + cl + tm && r + er + cl + fw + rd ≤ 64 && fw ≤ 4 && 1 ≤ reps && reps ≤ 1000000
+    | _, _, _, _, _, _, _ => false
+  | _ => false
+
+/-- judge of the `future-race` suite: `race … => reps=… | n=… crashes=… F k=0 … | …`: every distinct
+observation (each is a quiescent state: all goroutines have been joined) must satisfy the spec -/
+def raceJudge : Suite where
+  σ := Unit
+  init := ()
+  step _ toks :=
+    let op := toks.takeWhile (· ≠ "=>")
+    match toks.dropWhile (· ≠ "=>") with
+    | _ :: out =>
+      if !validRaceOp op then ((), if out == ["bad-op"] then "ok" else "bad:malformed-op-accepted")
+      else
+        match (" ".intercalate out).splitOn " | " with
+        | [] => ((), "bad:unparsable-output")
+        | _ :: groups =>
+          let verdicts := groups.map fun grp =>
+            let ts := tokens grp
+            match (kv ts "crashes").bind (·.toNat?), parseObs ts with
+            | some cr, some o => if cr == 0 then verdict cr [o] else "bad:panic"
+            | _, _ => "bad:unparsable-output"
+          if groups.isEmpty then ((), "bad:unparsable-output")
+          else ((), (verdicts.find? (· ≠ "ok")).getD "ok")
+    | [] => ((), "bad-op")
+
+/-- T-facts: `facts <file-key> <Func>` answers the skeleton the model was transcribed from -/
+def factsSuite : Suite where
+  σ := Unit
+  init := ()
+  step _ toks := match toks with
+    | ["facts", k, f] =>
+      match MV.Model.FutureFacts.table.lookup (k, f) with
+      | some s => ((), s)
+      | none => ((), "bad-op")
+    | _ => ((), "bad-op")
 
 end Oracle.Future
